@@ -208,17 +208,24 @@ def generate(tier, seed):
     pars_bin = PAR_TABLES[t]
     pars_grey = pars_bin if quick else sorted(PARS)
     tabs = [t] if quick else [0, 1, 2]
-    levels = [(4, 'nel<=4'), (6, 'nel<=6'), (9, 'nel<=9'), (12, 'nel<=12'),
-              (10 ** 9, 'nel>12 (restricted 0/1 families)')]
+    # thorough: levels of growing cost; the exhaustive 10..12-element level is by far the dearest and comes last, so
+    # that a run capped by the time budget has still visited every grid size (the larger ones with restricted fields)
+    levels = [(1, 4, 'nel<=4'), (5, 6, 'nel<=6'), (7, 9, 'nel<=9'), (13, 10 ** 9, 'nel>12 (restricted 0/1 families)'),
+              (10, 12, 'nel 10..12 (all 0/1 fields)')]
+    order = all_grids()
+    if not quick:
+        lev_of = lambda g: next(i for i, (lo, hi, _) in enumerate(levels)  # noqa: E731
+                                if lo <= g[0] * g[1] * max(g[2], 1) <= hi)
+        order.sort(key=lev_of)      # stable: simplest first inside a level
     cur = -1
-    for g in all_grids():
+    for g in order:
         nel = g[0] * g[1] * max(g[2], 1)
         dim = 3 if g[2] > 0 else 2
         if not quick:
-            lv = next(i for i, (b, _) in enumerate(levels) if nel <= b)
+            lv = lev_of(g)
             if lv != cur:
                 cur = lv
-                yield {'__level__': levels[lv][1]}
+                yield {'__level__': levels[lv][2]}
         if nel <= (nbin2 if dim == 2 else nbin3):
             fam, extra, n = 'bin', {}, 2 ** nel
         else:
